@@ -270,7 +270,7 @@ LATE = {
     "C10": "Also: health changes of a side (corr/C10health.v, props/C10health.v) and the same decisions made by 8 goroutines at once.",
     "C11": "Also: a snapshot taken during an outage, a wildcard-TLS root service beside a sub-path service; the held time of a request is compared "
            "between the run with and the run without the restart; monitor corr/C11step.c11_restart_step_ok (the requests right after "
-           "the restart are answered as the same requests right before it); a slow first probe after the restart.",
+           "the restart are answered as the same requests right before it; link theorem props/C11step.v); a slow first probe after the restart.",
     "C12": "Also: the state file is read at every file-system step of a restart (corr/C12fault.v); bursts of overlapping commands with long "
            "snapshots and inert hooks (file vs configuration in force after every round); the built binary restarted on a large saved state "
            "with a client command sent the moment the command socket exists.",
